@@ -85,6 +85,19 @@ def exprKind : Expression → String
   | .Var _ => "Var" | .Const _ _ => "Const" | .BinOp op _ _ => op.name | .UnOp op _ => op.name
   | .Cast op _ _ => op.name | .Unknown _ _ => "Unknown" | .Subpiece _ _ _ => "Subpiece"
 
+/-- kind of a condition: the outermost operator and, for an operator applied to a compound operand, the
+operator of that operand (`IntEqual(IntAnd)`) -/
+def condKind : Expression → String
+  | .BinOp op l r =>
+    let inner := match l, r with
+      | .BinOp o _ _, _ => s!"({o.name})"
+      | _, .BinOp o _ _ => s!"({o.name})"
+      | _, _ => ""
+    op.name ++ inner
+  | .UnOp op (.BinOp o (.BinOp i _ _) _) => s!"{op.name}({o.name}({i.name}))"
+  | .UnOp op (.BinOp o _ (.BinOp i _ _)) => s!"{op.name}({o.name}({i.name}))"
+  | e => exprKind e
+
 /-- kind of the last def of the block that assigns register `r` -/
 def lastDefKind (b : Term Blk) (r : String) : String :=
   match b.term.defs.reverse.find? (fun d => match d.term with
@@ -94,6 +107,43 @@ def lastDefKind (b : Term Blk) (r : String) : String :=
       | .Load _ _ => "load"
       | .Store _ _ => "store")
   | none => "unassigned"
+
+def exprRegs : Expression → List String
+  | .Var v => [v.name]
+  | .BinOp _ l r => exprRegs l ++ exprRegs r
+  | .UnOp _ a => exprRegs a
+  | .Cast _ _ a => exprRegs a
+  | .Subpiece _ _ a => exprRegs a
+  | _ => []
+
+/-- The run is outside the (explicit) separation assumption of the conditional specialisation: the first failing
+visit is entered through a conditional jump whose condition mentions registers that the analysis holds relative to
+two DIFFERENT identifiers, and in this run the two identifiers stand for (almost) the same concrete value.
+`DataDomain::intersect` "assumes that two different relative values cannot intersect" (its documentation calls this
+unsound: "… or if the relative values do in fact reference the same object despite having different identifiers");
+`(R9 - RDX) == 0` with two parameter registers of equal entry value is specialised to the empty state. -/
+def aliasedIdsAtCond (ν : Nat → Option Nat) (regs : List Variable) (infos : List BlockInfo) (vs : List Visit) : Bool :=
+  match vs.zipIdx.find? fun (v, _) => (checkVisit ν regs infos v).isSome with
+  | none => false
+  | some (v, i) =>
+    let startFailure := match checkVisit ν regs infos v with
+      | some (.unreachableReached _ _) => true
+      | some (.excluded _ atEnd _ _ _) => !atEnd
+      | _ => false
+    if i == 0 || !(v.via == .condTrue || v.via == .condFalse) || !startFailure then false
+    else
+      match vs[i - 1]? with
+      | none => false
+      | some pre =>
+        let conds := pre.blk.term.jmps.filterMap fun j => match j.term with | .CBranch _ c => some c | _ => none
+        let names := conds.flatMap exprRegs
+        let endSt := ((infos.find? (·.tid == pre.blk.tid.id)).bind (·.atEnd)).getD []
+        let ids := (names.flatMap fun n =>
+          match endSt.find? (·.1 == n) with | some (_, d) => d.rel.map (·.1) | none => []).eraseDups
+        ids.any fun a => ids.any fun b => a < b &&
+          (match ν a, ν b with
+           | some x, some y => let d := (x + 2 ^ 64 - y % 2 ^ 64) % 2 ^ 64; decide (d < 2 ^ 32) || decide (d > 2 ^ 64 - 2 ^ 32)
+           | _, _ => false)
 
 def handlePi (j : Json) : Except String String := do
   let p ← parseProject (← field j "project")
@@ -126,6 +176,7 @@ def handlePi (j : Json) : Except String String := do
   let mut completed := 0
   let mut aborted := 0
   let mut unknownIds := false
+  let mut aliased := 0
   for (seed, run) in seeds.zipIdx do
     let σ0 := ((inits[run]?).getD []).foldl (fun s (v, x) => s.setReg v (Bv.ofBytes v.size x)) (initState seed sp regs)
     let ν : Nat → Option Nat := fun i => (ids[i]?).bind (valuate σ0 fnTid)
@@ -133,7 +184,9 @@ def handlePi (j : Json) : Except String String := do
     reached := reached + vs.length
     completed := completed + (vs.filter (·.stop.isSome)).length
     aborted := aborted + (vs.filter (·.aborted.isSome)).length
-    match checkRun ν regs infos vs with
+    let skip := (checkRun ν regs infos vs).isSome && aliasedIdsAtCond ν regs infos vs
+    if skip then aliased := aliased + 1
+    match (if skip then none else checkRun ν regs infos vs) with
     | none => pure ()
     | some (.unreachableReached b via) =>
       return s!"spec class=unreachable-block-reached:{via.name} expected=state-at:{b} impl=none seed={seed}"
@@ -150,6 +203,7 @@ def handlePi (j : Json) : Except String String := do
   let nstate := (infos.filter (·.atStart.isSome)).length
   return "ok pi" ++ (if reached > seeds.length then " multi-block-runs" else "") ++ (if aborted > 0 then " null-aborts" else "")
     ++ (if nstate < nblk then " has-unreachable" else "") ++ (if unknownIds then " unknown-ids" else "")
+    ++ (if aliased > 0 then " run-with-aliased-identifiers-at-condition-skipped" else "")
     ++ (if (infos.any fun bi => bi.atStart.isSome && bi.atEnd.isNone) then " certain-null-cut" else "")
 
 def mkDom (w : Nat) (s e : Int) (st : Nat) : IntervalDomain :=
@@ -720,7 +774,7 @@ def handleSc (j : Json) : Except String String := do
   let cond ← parseExpression (← field j "cond")
   let isTrue ← boolF j "is_true"
   let implJ ← field j "impl"
-  let kind := exprKind cond
+  let kind := condKind cond
   if let .ok m := implJ.getStr? then
     return s!"spec class=sc-impl-{(m.splitOn ":").headD "panic"}:{kind} expected=state impl={m.take 100}"
   let impl : Option MSt ← if implJ == Json.null then pure none else some <$> parseImplState implJ s0.st.globals sid gid
@@ -728,31 +782,46 @@ def handleSc (j : Json) : Except String String := do
   let inFrag := condFrag cond && ptrCmpFree s0 cond isTrue && leavesOk s0 cond && decide (C12.WellSized cond) && regsOk s0
   -- the soundness statement on the implementation output: a concrete state in γ of the input state in which the
   -- condition has the truth value of the branch is in γ of the specialised state (which exists)
+  -- concrete register values proposed by the generator (solutions of nested comparisons and their neighbours)
+  let hints : List (Variable × Bv) := match j.getObjVal? "hints" with
+    | .ok (.arr a) => a.toList.filterMap fun h =>
+      match h.getArrVal? 0 >>= (·.getStr?), h.getArrVal? 1 >>= (·.getNat?), h.getArrVal? 2 >>= (·.getNat?) with
+      | .ok n, .ok sz, .ok v => some (({ name := n, size := sz, isTemp := false } : Variable), Bv.ofBytes sz v)
+      | _, _, _ => none
+    | _ => []
   let mut sat := 0
+  let mut hinted := 0
   if decide (C12.WellSized cond) && regsOk s0 then
     for k in List.range 10 do
       let ρ := if inFrag then ((rhos gid)[k % 4]?).getD (fun _ => 0) else ((rhos gid)[0]?).getD (fun _ => 0)
       match pickState ρ s0.st.regs seed k with
       | none => pure ()
-      | some σ =>
-        match Sem.eval σ cond with
-        | some v =>
-          -- outside the proved fragment Boolean operations occur: their operands must be P-Code booleans
-          if v.w == 8 && v.toNat == (if isTrue then 1 else 0) && (inFrag || (flagsBoolean σ && boolOperandsOk σ cond)) then
-            sat := sat + 1
-            let rs := s0.st.regs.map fun p => s!"{p.1.name}={showBv (σ.getReg p.1)}"
-            match impl with
-            | none =>
-              return s!"spec class=sc-unsat-but-satisfiable:{kind}{if inFrag then "" else "-validated"} expected=state impl=none at={" ".intercalate rs}"
-            | some im =>
-              match checkState ρ false im σ with
-              | some e =>
-                return s!"spec class=sc-excluded:{kind}{if inFrag then "" else "-validated"} expected=member impl={e} at={" ".intercalate rs}"
+      | some σbase =>
+        -- the sampled state, and the sampled state with one register set to a proposed value inside γ of its
+        -- abstract value (a different slice of the proposals in every round)
+        let hs := (hints.zipIdx.filter fun (h, i) =>
+          (k < 2 || i % 5 == k % 5) && (s0.st.getReg h.1).contains ρ h.2 && h.2.w == 8 * h.1.size).map (·.1)
+        let σs := σbase :: hs.map fun h => σbase.setReg h.1 h.2
+        for (σ, si) in σs.zipIdx do
+          match Sem.eval σ cond with
+          | some v =>
+            -- outside the proved fragment Boolean operations occur: their operands must be P-Code booleans
+            if v.w == 8 && v.toNat == (if isTrue then 1 else 0) && (inFrag || (flagsBoolean σ && boolOperandsOk σ cond)) then
+              sat := sat + 1
+              if si > 0 then hinted := hinted + 1
+              let rs := (s0.st.regs.map (·.1) ++ (hs.map (·.1)).filter fun v => !(s0.st.regs.any (·.1 == v))).eraseDups.map fun v => s!"{v.name}={showBv (σ.getReg v)}"
+              match impl with
               | none =>
-                -- the invariant the conditional theorem does not re-establish: the specialised values are well-formed
-                if inFrag && !regsOk im then
-                  return s!"spec class=sc-result-not-wellformed:{kind} expected=well-formed-registers impl={(im.st.regs.filter fun (v, d) => !(wfDataB d && d.size == v.size)).map fun (v, d) => v.name ++ "=" ++ showDData d}"
-        | none => pure ()
+                return s!"spec class=sc-unsat-but-satisfiable:{kind}{if inFrag then "" else "-validated"} expected=state impl=none at={" ".intercalate rs}"
+              | some im =>
+                match checkState ρ false im σ with
+                | some e =>
+                  return s!"spec class=sc-excluded:{kind}{if inFrag then "" else "-validated"} expected=member impl={e} at={" ".intercalate rs}"
+                | none =>
+                  -- the invariant the conditional theorem does not re-establish: the specialised values are well-formed
+                  if inFrag && !regsOk im then
+                    return s!"spec class=sc-result-not-wellformed:{kind} expected=well-formed-registers impl={(im.st.regs.filter fun (v, d) => !(wfDataB d && d.size == v.size)).map fun (v, d) => v.name ++ "=" ++ showDData d}"
+          | none => pure ()
   match model, impl with
   | none, none => pure ()
   | some _, none => return s!"diff class=sc-unsat:{kind} model=state impl=none"
@@ -762,6 +831,7 @@ def handleSc (j : Json) : Except String String := do
     | some e => return s!"diff class=sc:{kind} {e}"
     | none => pure ()
   return s!"ok sc {kind}" ++ (if inFrag then " in-proved-fragment" else " validated-only") ++ (if sat > 0 then " branch-taken-concretely" else "")
+    ++ (if hinted > 0 then " branch-taken-at-proposed-value" else "")
     ++ (if impl.isNone then " unsatisfiable" else "")
 
 
